@@ -3,7 +3,7 @@ use crate::util::*;
 use raptorq::verif as rq;
 use raptorq::{
     BinaryMatrix, Decoder, DenseBinaryMatrix, Encoder, EncodingPacket, ObjectTransmissionInformation as Oti,
-    PayloadId, SourceBlockDecoder, SourceBlockEncoder, SourceBlockEncodingPlan, SparseBinaryMatrix,
+    SourceBlockDecoder, SourceBlockEncoder, SourceBlockEncodingPlan, SparseBinaryMatrix,
 };
 
 pub fn table_k() -> Vec<u32> {
@@ -736,5 +736,93 @@ pub fn linear(rec: &mut Recorder, rng: &mut Rng, thorough: bool) {
             });
             rec.put(&format!("enc {t} 1 1 {} {}", hex(&a), list(&esis)), &r.unwrap_or("err".into()));
         }
+    }
+}
+
+// exact Clopper–Pearson lower confidence bound for a binomial proportion: the p with
+// P(X >= k | n, p) = alpha (0 when k = 0)
+pub fn cp_lower(k: u64, n: u64, alpha: f64) -> f64 {
+    if k == 0 { return 0.0; }
+    let tail_ge = |p: f64| -> f64 {
+        // 1 - sum_{i<k} C(n,i) p^i (1-p)^(n-i), in log space
+        let (lp, lq) = (p.ln(), (1.0 - p).ln());
+        let mut logc = 0.0f64; // log C(n,0)
+        let mut s = 0.0f64;
+        for i in 0..k {
+            if i > 0 { logc += ((n - i + 1) as f64).ln() - (i as f64).ln(); }
+            s += (logc + i as f64 * lp + (n - i) as f64 * lq).exp();
+        }
+        1.0 - s
+    };
+    let (mut lo, mut hi) = (0.0f64, k as f64 / n as f64);
+    for _ in 0..200 {
+        let mid = (lo + hi) / 2.0;
+        if tail_ge(mid) < alpha { lo = mid; } else { hi = mid; }
+    }
+    lo
+}
+
+// ---------------------------------------------------------------- reception overhead (C03) + singular-set harvest (C02)
+pub fn overhead(rec: &mut Recorder, rng: &mut Rng, thorough: bool) {
+    let ks: Vec<u32> = if thorough { vec![10, 11, 26, 55, 101, 180, 300] } else { vec![10, 13, 26, 60] };
+    let trials: u64 = if thorough { 150_000 } else { 6_000 };
+    let bounds = [0.01f64, 0.0001, 0.00001];
+    let mut fails = [0u64; 3];
+    let mut total = [0u64; 3];
+    for &k in &ks {
+        let t = 1u16;
+        let data = rng.bytes(k as usize);
+        let cfg = cfg_for(k, t, 1, 1);
+        let enc = SourceBlockEncoder::new(0, &cfg, &data);
+        let src = enc.source_packets();
+        let kp = rq::extended_source_block_symbols(k);
+        for h in 0..3usize {
+            let n = if h == 0 { trials } else { trials / 2 } / if k > 150 { 4 } else { 1 };
+            for it in 0..n {
+                // uniformly random (K+h)-subset of the 2^24 encoding symbols
+                let mut set = std::collections::BTreeSet::new();
+                while set.len() < k as usize + h { set.insert((rng.next() & 0xFF_FFFF) as u32); }
+                let esis: Vec<u32> = set.into_iter().collect();
+                let pk: Vec<EncodingPacket> = esis.iter().map(|e| if *e < k { src[*e as usize].clone() } else { enc.repair_packets(e - k, 1).remove(0) }).collect();
+                let sparse = it % 2 == 0;
+                let r = guarded(move || {
+                    let mut dec = SourceBlockDecoder::new(0, &cfg, k as u64);
+                    dec.set_sparse_threshold(if sparse { 0 } else { 1 << 30 });
+                    dec.decode(pk)
+                });
+                total[h] += 1;
+                let ok = match &r {
+                    Ok(Some(b)) => { if *b != data { rec.impl_violation(format!("wrong bytes from K={k} ESIs {}", list(&esis))); } true }
+                    Ok(None) => false,
+                    Err(_) => { rec.impl_violation(format!("decoder panics K={k} ESIs {}", list(&esis))); false }
+                };
+                if !ok { fails[h] += 1; }
+                // the certified rank oracle decides every failure and a sample of the successes
+                if !ok || it % 16 == 0 {
+                    // ISIs in the decoder's row order: received source, padding, repair
+                    let mut isis: Vec<u32> = esis.iter().copied().filter(|e| *e < k).collect();
+                    isis.extend(k..kp);
+                    isis.extend(esis.iter().filter(|e| **e >= k).map(|e| e + (kp - k)));
+                    let all_src = esis.iter().filter(|e| **e < k).count() == k as usize;
+                    if !all_src {
+                        rec.put(&format!("rank {k} {}", list(&isis)), if ok { "solved" } else { "singular" });
+                        rec.count(if ok { "oracle_checked_success" } else { "oracle_checked_failure" });
+                    }
+                }
+            }
+            rec.add(&format!("trials_h{h}"), n);
+        }
+    }
+    for h in 0..3 {
+        rec.add(&format!("failures_h{h}"), fails[h]);
+        let lb = cp_lower(fails[h], total[h], 1e-9);
+        rec.add(&format!("failure_rate_h{h}_ppm"), (fails[h] as f64 / total[h] as f64 * 1e6) as u64);
+        rec.add(&format!("cp_lower_1e-9_h{h}_ppb"), (lb * 1e9) as u64);
+        if lb > bounds[h] {
+            rec.impl_violation(format!("reception overhead: {} failures in {} decodes with {h} extra symbols; the exact lower confidence bound {lb:.3e} (confidence 1-1e-9) exceeds the advertised {}", fails[h], total[h], bounds[h]));
+        }
+    }
+    if fails[0] < 10 {
+        rec.count("generator_too_weak_singular_sets");
     }
 }
